@@ -539,14 +539,14 @@ impl QueryProp {
 
     /// Queries that finish within microseconds must not leave a live timer behind that stops a later query.
     fn stray_timer(&self, rounds: usize, last_kind: usize, rep: &mut Report) -> CaseResult {
-        let p = parse_program("q(1). q(2). q(3). ?- q($X).").unwrap();
-        let case = format!("{} fast solve_all / solve calls on `q(1). q(2). q(3).` ending in every possible way (all answers, first answer, `No more.`, re-asked, no answer, unknown predicate), the last one of kind {}, then 1.3 s of waiting, then the same query again", rounds, last_kind % 6);
+        let p = parse_program("q(1). q(2). q(3). c(1) :- !. c(2). ?- q($X).").unwrap();
+        let case = format!("{} fast solve_all / solve calls on `q(1). q(2). q(3).` ending in every possible way (all answers, first answer, `No more.`, re-asked, no answer, unknown predicate, re-asked after a cut closed the query, re-asked after a time-out closed it), the last one of kind {}, then 1.3 s of waiting, then the same query again", rounds, last_kind % 8);
         let r = guarded(u64::MAX, || -> Result<(), CaseResult> {
             suiron::start_query();
             let kb = build_kb(&p.clauses);
             for i in 0..=rounds {
                 // every way a solve / solve_all call can end; the last call (whose timer no later call invalidates) is of kind `last_kind`
-                match if i == rounds { last_kind % 6 } else { i % 6 } {
+                match if i == rounds { last_kind % 8 } else { i % 8 } {
                     0 => { let sn = suiron::make_base_node(Rc::new(mk_query("q", &[Term::var("$X")])), &kb); let _ = suiron::solve_all(sn); }
                     1 => { let sn = suiron::make_base_node(Rc::new(mk_query("q", &[Term::var("$X")])), &kb); let _ = suiron::solve(sn); }
                     2 => {
@@ -557,7 +557,21 @@ impl QueryProp {
                     }
                     3 => { let sn = suiron::make_base_node(Rc::new(mk_query("q", &[Term::Int(9)])), &kb); let _ = suiron::solve_all(sn); }
                     4 => { let sn = suiron::make_base_node(Rc::new(mk_query("q", &[Term::Int(9)])), &kb); let _ = suiron::solve(sn); }
-                    _ => { let sn = suiron::make_base_node(Rc::new(mk_query("no_such_predicate", &[Term::var("$X")])), &kb); let _ = suiron::solve_all(sn); }
+                    5 => { let sn = suiron::make_base_node(Rc::new(mk_query("no_such_predicate", &[Term::var("$X")])), &kb); let _ = suiron::solve_all(sn); }
+                    6 => {
+                        // a query closed by a cut (the clause that answered it cut), asked again twice
+                        let sn = suiron::make_base_node(Rc::new(mk_query("c", &[Term::var("$X")])), &kb);
+                        for _ in 0..3 { let _ = suiron::solve(Rc::clone(&sn)); }
+                    }
+                    _ => {
+                        // a query closed by a time-out (the harness plays the timer on entry to its first node), asked again
+                        let sn = suiron::make_base_node(Rc::new(mk_query("q", &[Term::var("$X")])), &kb);
+                        stop_at_tick(ticks() + 1);
+                        let first = suiron::solve(Rc::clone(&sn));
+                        stop_at_tick(0);
+                        if first != TIMEOUT_MSG { return Err(fail(self.id, "no-timeout-message", format!("the stop flag was raised during solve, which returned {:?}", first), case.clone())); }
+                        for _ in 0..2 { let _ = suiron::solve(Rc::clone(&sn)); }
+                    }
                 }
             }
             // a query that is being enumerated slowly by its caller (no timer of its own)
@@ -614,7 +628,7 @@ impl Property for QueryProp {
                     let n = (8.0 * (target / t8).powf(0.2)).round().max(2.0).min(60.0) as u32;
                     self.slow(n, 5, [0, 1, 2, 3, 4, 5, 5][s.draw(7) as usize], chance(s, 1, 2), rep)
                 }
-                _ => { let n = 300 + 500 * s.draw(4) as usize; let k = s.draw(6) as usize; self.stray_timer(n, k, rep) },
+                _ => { let n = 300 + 500 * s.draw(4) as usize; let k = s.draw(8) as usize; self.stray_timer(n, k, rep) },
             },
         }
     }
@@ -634,6 +648,9 @@ impl Property for QueryProp {
                 let p3 = parse_program("item(1). item(2). item(3). two($X, $Y) :- item($X), item($Y). ?- two($X, $Y).").unwrap();
                 out.push(("paused-after-solve-to-no-more".into(), self.run_history(&p3, &[Step::Solve { other: false, k: 12 }], 0, true, 0, rep)));
                 out.push(("paused-after-solve-partial-and-solve-all".into(), self.run_history(&p3, &[Step::Solve { other: true, k: 2 }, Step::SolveAll { other: false }, Step::Unknown], 0, true, 0, rep)));
+                // a query that a cut closed, asked again with solve (which then has nothing to search), then the slow consumer
+                let p4 = parse_program("item(1). item(2). first($X) :- item($X), !. item(3). two($X, $Y) :- item($X), item($Y). ?- two($X, $Y).").unwrap();
+                out.push(("paused-after-solve-on-a-query-closed-by-cut".into(), self.run_history(&p4, &[Step::Solve { other: true, k: 4 }], 0, true, 0, rep)));
                 out.push(("paused-after-timeout-and-reasks".into(), self.run_history(&p3, &[Step::CheapTimeout, Step::Exhaust { other: false, reasks: 2 }, Step::Solve { other: true, k: 5 }], 0, true, 0, rep)));
             }
             QAspect::Timeout => {
@@ -645,6 +662,8 @@ impl Property for QueryProp {
                 }
                 out.push(("stray-timer".into(), self.stray_timer(4000, 2, rep)));
                 out.push(("stray-timer-no-answer".into(), self.stray_timer(600, 4, rep)));
+                out.push(("stray-timer-closed-by-cut".into(), self.stray_timer(400, 6, rep)));
+                out.push(("stray-timer-closed-by-timeout".into(), self.stray_timer(400, 7, rep)));
             }
         }
         out
